@@ -11,6 +11,9 @@
 """
 
 
+QUICK_SCALE = 3
+
+
 class Violation(Exception):
     def __init__(self, msg, observed=None, expected=None, case=None):
         Exception.__init__(self, msg)
@@ -51,7 +54,8 @@ class Law(object):
         self.nt_weight = nt_weight or self.weight
 
     def budget(self, tier):
-        return self.quick if tier == 'quick' else self.thorough
+        # the per-law quick figures were calibrated at 4-20 s per property; three times that keeps every quick check under a minute on 16 cores
+        return self.quick * QUICK_SCALE if tier == 'quick' else self.thorough
 
     def nshards(self, tier):
         return self.shards[0] if tier == 'quick' else self.shards[1]
